@@ -60,6 +60,14 @@ def staticCmpSpecial (op : Op) (l : FClass) (r : Option FClass) : CmpOut :=
   | none => .untouched
   | some r => .set (ieeeCmp op l r)
 
+/-- Generated Compare (writeCmp) on a non-pointer float leaf holding `l`: the operand parsed by the conversion
+snippet (`none`: the snippet's error is returned), then the six-way switch on native operators — IEEE semantics
+on special values; any other operator leaves the result alone (`cmpSix`). -/
+def genCmpSpecial (op : Op) (l : FClass) (r : Option FClass) : CmpOut :=
+  match r with
+  | none => .err
+  | some r => if 1 ≤ op ∧ op ≤ 6 then .set (ieeeCmp op l r) else .untouched
+
 def staticCmpTwo (op : Op) (l r : Val) : Bool :=
   match valEq l r with
   | some eq => if op == 1 then eq else if op == 2 then !eq else false
